@@ -44,6 +44,11 @@ chk("C17", "model_checking",
     "Message-server level (no ante handler); trusts go-ethereum's interpreter dispatch.",
     "explicit-state BFS over real branch states, invariant + exposure oracle", "DESIGN.md §5 C17", "seqx-branch")
 
+chk("C16", "model_checking",
+    "Part 1: explicit-state BFS to fixpoint over CacheContext branches with a 90-op proof-submission alphabet (3 submitters × 3 accounts × 10 signature variants) through ValidateBasic + the real vauth message server, full store hash as state identity, compared after every transition with a 3-field reference model (proven set, balances, supply) - a proof is stored only with a signature made by the account's key, never twice, never altered, the fee is burnt exactly once, refusals change nothing. Part 2: 126 complete-transaction cases through FinalizeBlock (proven sets × 3 vesting-creation messages × targets × routing top-level / MsgExec depth 1..5 with grantee = granter / MsgGrant): a vesting account appears only for a proven address and only through a top-level message.",
+    "Trusts secp256k1 recovery and cosmos-sdk authz/vesting; upper-case and malleated encodings of a valid signature carry no expectation on acceptance.",
+    "explicit-state BFS to fixpoint over real branch states with reference model + exhaustive routing product at ABCI level", "DESIGN.md §5 C16", "seqx-branch")
+
 NOT_YET = "check not built yet in this round (planned, see DESIGN.md §9)"
 
 def main():
